@@ -494,6 +494,16 @@ def run_cursor_loc_fresh(prog, tier, repo):
     for wid in writers:
         wb = prog.bodies[wid]
         for bl in wb.blocks:
+            for st in bl.stmts:
+                if st[0] == 'a' and any(e[0] == 'f' and e[4] == 'peeked' for e in st[1].proj):
+                    rv = st[2]
+                    if rv[0] == 'use' and rv[1][0] in ('c', 'm') and not rv[1][1].proj:
+                        sd = single_def(wb, rv[1][1].local)
+                        rv = sd[2] if sd and sd[1] != 'term' else rv
+                    if (rv[0] == 'agg' and rv[1][0] == 'adt' and rv[1][3] == 'None') or \
+                            (rv[0] == 'use' and rv[1][0] == 'k' and 'None' in (rv[1][1].v or '')):
+                        consuming.add(wid)
+        for bl in wb.blocks:
             t = bl.term
             if t[0] == 'call' and (callee(t)[1] or '').endswith('::take') and t[3] and t[3][0][0] in ('c', 'm'):
                 r, p = operand_root(wb, t[3][0])
